@@ -15,13 +15,19 @@ import (
 	"github.com/anyproto/any-sync/commonspace/object/acl/list"
 	"github.com/anyproto/any-sync/commonspace/object/tree/objecttree"
 	"github.com/anyproto/any-sync/commonspace/object/tree/treechangeproto"
+	"github.com/anyproto/any-sync/consensus/consensusproto"
 	"github.com/anyproto/any-sync/util/crypto"
 
 	"verifharness/internal/corr"
 )
 
-// treeCtx: one real object tree (any-store backed) living in the space of the history. The storage is
-// shared; every account looks at it through its OWN tree object built over its OWN AclList view.
+// treeCtx: one real object tree (any-store backed) living in the space of the history.
+//   * a shared "main" storage: every account looks at it through a FRESH tree object built over its fresh view;
+//   * one long-lived replica per account (own storage, a tree object that stays open through the whole history,
+//     over the account's own long-lived AclList fed record by record with AddRawRecord). Replicas receive the
+//     changes of the others as transmitted raw bytes (AddRawChanges), possibly late, also while the account is
+//     out of the space; writers may write on their long-lived tree. This is what exercises the per-tree key
+//     cache (readKeysFromAclState) across membership changes.
 type treeCtx struct {
 	dir     string
 	db      anystore.DB
@@ -29,21 +35,31 @@ type treeCtx struct {
 	root    *treechangeproto.RawTreeChangeWithId
 	written []content
 	n       int
+	reps    []*replica
+}
 
-	// the owner's long-lived replica: its own storage, a tree object that lives through the whole history over
-	// an AclList that receives every accepted record incrementally (AddRawRecord). It gets every change of the
-	// other writers as transmitted raw bytes (AddRawChanges) and must decrypt all of them: this exercises the
-	// lazy key refresh of readKeysFromAclState on a live tree, which fresh trees never reach.
-	liveDb   anystore.DB
-	liveAcl  list.AclList
-	liveTree objecttree.ObjectTree
-	liveGot  map[string][]byte
+type payload struct {
+	heads []string
+	raws  []*treechangeproto.RawTreeChangeWithId
+	ids   []string
+}
+
+type replica struct {
+	acc     int
+	db      anystore.DB
+	acl     list.AclList
+	tree    objecttree.ObjectTree
+	pending []payload
+	has     map[string]bool   // change ids delivered to (or written by) this replica
+	got     map[string][]byte // plaintexts this replica's tree produced
+	touches int
 }
 
 type content struct {
-	id    string
-	plain []byte
-	gen   int
+	id     string
+	plain  []byte
+	gen    int
+	author int
 }
 
 var marker = []byte("PLAINTEXT-MARKER-c05-")
@@ -52,16 +68,38 @@ func (h *hist) closeTree() {
 	if h.tree == nil {
 		return
 	}
+	for _, rp := range h.tree.reps {
+		if rp.db != nil {
+			rp.db.Close()
+		}
+	}
 	if h.tree.db != nil {
 		h.tree.db.Close()
-	}
-	if h.tree.liveDb != nil {
-		h.tree.liveDb.Close()
 	}
 	os.RemoveAll(h.tree.dir)
 	h.tree = nil
 }
 
+func newTreeStorage(ctx context.Context, dir, name string, root *treechangeproto.RawTreeChangeWithId) (anystore.DB, objecttree.Storage, error) {
+	db, err := anystore.Open(ctx, filepath.Join(dir, name), nil)
+	if err != nil {
+		return nil, nil, err
+	}
+	hs, err := headstorage.New(ctx, db)
+	if err != nil {
+		return db, nil, err
+	}
+	st, err := objecttree.CreateStorage(ctx, root, hs, db)
+	if err != nil {
+		return db, nil, err
+	}
+	if s, ok := st.(interface{ SetAddSeq(*atomic.Uint64) }); ok {
+		s.SetAddSeq(&atomic.Uint64{})
+	}
+	return db, st, nil
+}
+
+// openTree is called right after the root: the tree and every account's replica live through the whole history.
 func (h *hist) openTree(creator int) error {
 	ctx := context.Background()
 	base := ""
@@ -77,10 +115,6 @@ func (h *hist) openTree(creator int) error {
 	}
 	t := &treeCtx{dir: dir}
 	h.tree = t
-	t.db, err = anystore.Open(ctx, filepath.Join(dir, "db"), nil)
-	if err != nil {
-		return err
-	}
 	t.root, err = objecttree.CreateObjectTreeRoot(objecttree.ObjectTreeCreatePayload{
 		PrivKey: h.accs[creator].SignKey, ChangeType: "t", SpaceId: fmt.Sprintf("space-%d", h.id), IsEncrypted: true,
 		Seed: []byte(fmt.Sprint(h.id)), Timestamp: 1700000000,
@@ -88,117 +122,139 @@ func (h *hist) openTree(creator int) error {
 	if err != nil {
 		return err
 	}
-	hs, err := headstorage.New(ctx, t.db)
+	t.db, t.st, err = newTreeStorage(ctx, dir, "main", t.root)
 	if err != nil {
 		return err
 	}
-	t.st, err = objecttree.CreateStorage(ctx, t.root, hs, t.db)
-	if err != nil {
-		return err
+	for a := range h.accs {
+		rp := &replica{acc: a, has: map[string]bool{}, got: map[string][]byte{}}
+		t.reps = append(t.reps, rp)
+		var st objecttree.Storage
+		rp.db, st, err = newTreeStorage(ctx, dir, fmt.Sprintf("rep%d", a), t.root)
+		if err != nil {
+			return err
+		}
+		rp.acl, err = h.buildView(h.accs[a], true)
+		if err != nil {
+			return err
+		}
+		rp.tree, err = objecttree.BuildObjectTree(st, rp.acl)
+		if err != nil {
+			return fmt.Errorf("account %d cannot open its long-lived tree: %w", a, err)
+		}
+		rp.touches++
 	}
-	if s, ok := t.st.(interface{ SetAddSeq(*atomic.Uint64) }); ok {
-		s.SetAddSeq(&atomic.Uint64{})
-	}
-	// live replica of the owner
-	t.liveDb, err = anystore.Open(ctx, filepath.Join(dir, "live"), nil)
-	if err != nil {
-		return err
-	}
-	hs2, err := headstorage.New(ctx, t.liveDb)
-	if err != nil {
-		return err
-	}
-	st2, err := objecttree.CreateStorage(ctx, t.root, hs2, t.liveDb)
-	if err != nil {
-		return err
-	}
-	if s, ok := st2.(interface{ SetAddSeq(*atomic.Uint64) }); ok {
-		s.SetAddSeq(&atomic.Uint64{})
-	}
-	t.liveAcl, err = h.buildView(h.accs[creator], true)
-	if err != nil {
-		return err
-	}
-	t.liveTree, err = objecttree.BuildObjectTree(st2, t.liveAcl)
-	if err != nil {
-		return err
-	}
-	t.liveGot = map[string][]byte{}
 	return nil
 }
 
-// liveSync hands the owner's live replica the raw bytes of freshly written changes and checks that it
-// reads every change written so far.
-func (h *hist) liveSync(res objecttree.AddResult) {
-	t := h.tree
-	ctx := context.Background()
-	if _, err := t.liveTree.AddRawChanges(ctx, objecttree.RawChangesPayload{NewHeads: res.Heads, RawChanges: res.RawChanges()}); err != nil {
-		h.violate("keys.tree-live", fmt.Sprintf("the owner's live replica rejects a transmitted change: %v", err))
+// feedAcl gives every long-lived AclList the accepted record (the incremental path of a running client).
+func (h *hist) feedAcl(raw *consensusproto.RawRecordWithId, idx int) {
+	if h.tree == nil {
 		return
 	}
-	h.liveCheck()
-}
-
-func (h *hist) liveCheck() {
-	t := h.tree
-	ierr := t.liveTree.IterateRoot(func(ch *objecttree.Change, decrypted []byte) (any, error) {
-		t.liveGot[ch.Id] = append([]byte{}, decrypted...)
-		return "m", nil
-	}, func(ch *objecttree.Change) bool { return true })
-	h.r.Count("tree.live-read")
-	if ierr != nil {
-		h.violate("keys.tree-live", fmt.Sprintf("the owner's live replica cannot iterate its tree after record %d: %v", len(h.raw)-1, ierr))
-		return
-	}
-	for _, c := range t.written {
-		if !bytes.Equal(t.liveGot[c.id], c.plain) {
-			h.violate("keys.tree-live", fmt.Sprintf("the owner's live replica does not read back a change written under generation %d", c.gen))
-			return
+	for _, rp := range h.tree.reps {
+		var err error
+		func() {
+			defer func() {
+				if p := recover(); p != nil {
+					err = fmt.Errorf("panic: %v", p)
+				}
+			}()
+			err = rp.acl.AddRawRecord(raw)
+		}()
+		if err != nil {
+			h.violate("keys.live-acl", fmt.Sprintf("the long-lived AclList of account %d rejects accepted record %d: %v", rp.acc, idx, err))
 		}
 	}
 }
 
-// liveWrite: the owner writes on its live tree (key of the current generation must have been picked up
-// lazily) and the change is transmitted to the shared storage.
-func (h *hist) liveWrite() {
-	t := h.tree
+// deliver hands a replica the raw changes it has not seen yet (transmission). Every call that carries a new
+// change makes the tree re-validate, i.e. touches its key cache.
+func (h *hist) deliver(rp *replica) {
 	ctx := context.Background()
-	t.n++
-	plain := append(append([]byte{}, marker...), []byte(fmt.Sprintf("live-%d-%d-%d", h.id, t.n, h.r.Intn(1<<30)))...)
-	owner := h.owner()
-	res, err := t.liveTree.AddContent(ctx, objecttree.SignableChangeContent{Data: plain, Key: h.accs[owner].SignKey, ShouldBeEncrypted: true, DataType: "d", Timestamp: int64(1700000000 + t.n)})
-	h.r.Count("tree.live-add")
-	if err != nil || len(res.Added) != 1 {
-		h.violate("keys.tree-live", fmt.Sprintf("the owner cannot add encrypted content on its live tree after record %d: %v", len(h.raw)-1, err))
-		return
+	for _, p := range rp.pending {
+		_, err := rp.tree.AddRawChanges(ctx, objecttree.RawChangesPayload{NewHeads: p.heads, RawChanges: p.raws})
+		rp.touches++
+		h.r.Count("tree.deliver")
+		if err != nil {
+			if h.perm[rp.acc] != pNone {
+				h.violate("keys.tree-live", fmt.Sprintf("the long-lived tree of member %d rejects a transmitted change after record %d: %v", rp.acc, len(h.raw)-1, err))
+			}
+			h.r.Count("tree.deliver-error")
+			continue
+		}
+		for _, id := range p.ids {
+			rp.has[id] = true
+		}
 	}
-	cur := len(h.gens) - 1
+	rp.pending = nil
+}
+
+// canRead probes ONE change through the tree's own decrypting iteration.
+func canRead(tr objecttree.ObjectTree, got map[string][]byte, c content) (bool, error) {
+	if _, ok := got[c.id]; ok {
+		return true, nil // converted earlier: the tree keeps the model and dropped the ciphertext
+	}
+	seen := false
+	err := tr.IterateFrom(c.id, func(ch *objecttree.Change, decrypted []byte) (any, error) {
+		if ch.Id == c.id {
+			got[c.id] = append([]byte{}, decrypted...)
+		}
+		return "m", nil
+	}, func(ch *objecttree.Change) bool {
+		if ch.Id == c.id {
+			seen = true
+		}
+		return false
+	})
+	_, ok := got[c.id]
+	return ok && seen && err == nil, err
+}
+
+func (h *hist) checkRaw(what string, rawb, plain []byte, cur int) {
+	t := h.tree
+	if bytes.Contains(rawb, marker) {
+		h.violate("keys.tree-plaintext", fmt.Sprintf("%s raw bytes of an encrypted change contain the plaintext", what))
+	}
 	rc := &treechangeproto.RawTreeChange{}
 	tc := &treechangeproto.TreeChange{}
-	if rc.UnmarshalVT(res.Added[0].RawChange) != nil || tc.UnmarshalVT(rc.Payload) != nil {
-		h.r.Fatal("cannot decode a change")
+	if rc.UnmarshalVT(rawb) != nil || tc.UnmarshalVT(rc.Payload) != nil {
+		h.r.Fatal("cannot decode a stored change")
 	}
-	if tc.ReadKeyId != h.gens[cur].recId || bytes.Contains(res.Added[0].RawChange, marker) {
-		h.violate("keys.tree-live", fmt.Sprintf("a change written on the live tree after record %d names a stale read key id or carries plaintext", len(h.raw)-1))
+	if tc.ReadKeyId != h.gens[cur].recId {
+		h.violate("keys.tree-keyid", fmt.Sprintf("%s change names read key id of a generation other than the current one (%d)", what, cur))
 	}
-	h.wrote[owner] = true
-	t.written = append(t.written, content{id: res.Added[0].Id, plain: plain, gen: cur})
-	ft, err := objecttree.BuildObjectTree(t.st, h.cviews[owner])
-	if err != nil {
-		h.violate("keys.tree", fmt.Sprintf("owner cannot build the tree over its view: %v", err))
-		return
+	// ciphertext under the tree key derived from the generation the id names
+	tk, derr := crypto.NewKeyDeriver(fmt.Sprintf(crypto.AnysyncTreePath, t.root.Id)).DeriveKey(must(h.gens[cur].key.Raw()))
+	if derr != nil {
+		h.r.Fatal(derr.Error())
 	}
-	if _, err := ft.AddRawChanges(ctx, objecttree.RawChangesPayload{NewHeads: res.Heads, RawChanges: res.RawChanges()}); err != nil {
-		h.violate("keys.tree-live", fmt.Sprintf("a fresh tree rejects the change transmitted from the live tree: %v", err))
+	dec, derr := tk.Decrypt(tc.ChangesData)
+	if derr != nil || !bytes.Equal(dec, plain) {
+		h.violate("keys.tree-ciphertext", fmt.Sprintf("%s change data is not the plaintext encrypted under the tree key of generation %d (the generation its read key id names)", what, cur))
 	}
 }
 
-// treeRound: a writer adds encrypted content under the current key generation; the raw bytes returned,
-// and the raw bytes in storage, must not contain the plaintext; every current member must read back the
-// plaintext of every change (whatever generation it was written under) through its own tree object; an
-// account that lacks the generation of a change must fail to decrypt it.
-func (h *hist) treeRound() {
+type roundOpts struct {
+	writer      int   // -1: any account that can write
+	live        int   // 1: write on the long-lived tree, 0: on a fresh tree, -1: random
+	deliverTo   []int // accounts that must receive everything in this round (besides the random choice)
+	deliverAll  bool
+	keepPending []int // accounts that must NOT receive anything in this round
+}
+
+// treeRound: a writer adds encrypted content under the current key generation, on its long-lived tree or on a
+// fresh one; the raw bytes returned and stored must not contain the plaintext and must be the ciphertext under
+// the tree key of the generation the change names; the change is transmitted to the replicas (to some of them
+// late). Then every account is probed, through its long-lived tree and through a fresh tree over its fresh
+// view: a current member that received everything decrypts every piece of content written so far; an account
+// whose key map lacks a generation decrypts nothing written under it.
+func (h *hist) treeRound(o roundOpts) {
 	ctx := context.Background()
+	t := h.tree
+	if t == nil {
+		return
+	}
 	var writers []int
 	for a, p := range h.perm {
 		if p.CanWrite() {
@@ -208,29 +264,41 @@ func (h *hist) treeRound() {
 	if len(writers) == 0 {
 		return
 	}
-	if h.tree == nil {
-		if err := h.openTree(h.owner()); err != nil {
-			h.r.Fatal("cannot create the tree storage: " + err.Error())
-		}
+	w := o.writer
+	if w < 0 || !h.perm[w].CanWrite() {
+		w = h.pick(writers)
 	}
-	t := h.tree
-	w := h.pick(writers)
-	wl := h.views[w]
-	if h.r.Chance(50) {
-		wl = h.cviews[w]
-	}
-	wt, err := objecttree.BuildObjectTree(t.st, wl)
-	if err != nil {
-		h.violate("keys.tree", fmt.Sprintf("writer %d cannot build the tree over its view: %v", w, err))
-		return
-	}
+	live := o.live == 1 || (o.live < 0 && h.r.Chance(60))
 	t.n++
 	plain := append(append([]byte{}, marker...), []byte(fmt.Sprintf("%d-%d-%d", h.id, t.n, h.r.Intn(1<<30)))...)
-	res, err := wt.AddContent(ctx, objecttree.SignableChangeContent{Data: plain, Key: h.accs[w].SignKey, ShouldBeEncrypted: true, DataType: "d", Timestamp: int64(1700000000 + t.n)})
-	h.r.Count("tree.add")
+	sc := objecttree.SignableChangeContent{Data: plain, Key: h.accs[w].SignKey, ShouldBeEncrypted: true, DataType: "d", Timestamp: int64(1700000000 + t.n)}
 	cur := len(h.gens) - 1
+	var res objecttree.AddResult
+	var err error
+	wrp := t.reps[w]
+	if live {
+		if h.r.Chance(70) {
+			h.deliver(wrp)
+		}
+		res, err = wrp.tree.AddContent(ctx, sc)
+		wrp.touches++
+		h.r.Count("tree.add-live")
+	} else {
+		wl := h.views[w]
+		if h.r.Chance(50) {
+			wl = h.cviews[w]
+		}
+		var wt objecttree.ObjectTree
+		wt, err = objecttree.BuildObjectTree(t.st, wl)
+		if err != nil {
+			h.violate("keys.tree", fmt.Sprintf("writer %d cannot build the tree over its view: %v", w, err))
+			return
+		}
+		res, err = wt.AddContent(ctx, sc)
+		h.r.Count("tree.add-fresh")
+	}
 	if err != nil {
-		h.violate("keys.tree", fmt.Sprintf("account %d (%s) cannot add encrypted content after record %d: %v", w, permName(h.perm[w]), len(h.raw)-1, err))
+		h.violate("keys.tree", fmt.Sprintf("account %d (%s) cannot add encrypted content after record %d (long-lived tree: %v): %v", w, permName(h.perm[w]), len(h.raw)-1, live, err))
 		return
 	}
 	if len(res.Added) != 1 {
@@ -238,83 +306,123 @@ func (h *hist) treeRound() {
 	}
 	id := res.Added[0].Id
 	h.wrote[w] = true
-	t.written = append(t.written, content{id: id, plain: plain, gen: cur})
-	h.liveSync(res)
-	if h.r.Chance(40) {
-		h.liveWrite()
+	c := content{id: id, plain: plain, gen: cur, author: w}
+	t.written = append(t.written, c)
+	h.checkRaw("returned (transmitted)", res.Added[0].RawChange, plain, cur)
+	pl := payload{heads: res.Heads, raws: res.RawChanges(), ids: []string{id}}
+	if live {
+		wrp.has[id] = true
+		// into the shared storage through a fresh tree of the writer
+		ft, ferr := objecttree.BuildObjectTree(t.st, h.cviews[w])
+		if ferr != nil {
+			h.violate("keys.tree", fmt.Sprintf("writer %d cannot build the tree over its view: %v", w, ferr))
+			return
+		}
+		if _, ferr = ft.AddRawChanges(ctx, objecttree.RawChangesPayload{NewHeads: pl.heads, RawChanges: pl.raws}); ferr != nil {
+			h.violate("keys.tree-live", fmt.Sprintf("a fresh tree rejects the change transmitted from the long-lived tree of %d: %v", w, ferr))
+			return
+		}
 	}
-	// transmitted bytes and stored bytes
 	stored, gerr := t.st.Get(ctx, id)
 	if gerr != nil {
-		h.violate("keys.tree", "added change is not in storage: "+gerr.Error())
+		h.violate("keys.tree", "added change is not in the shared storage: "+gerr.Error())
 		return
 	}
-	for what, rawb := range map[string][]byte{"returned (transmitted)": res.Added[0].RawChange, "stored": stored.RawChange} {
-		if bytes.Contains(rawb, marker) {
-			h.violate("keys.tree-plaintext", fmt.Sprintf("%s raw bytes of an encrypted change contain the plaintext", what))
+	h.checkRaw("stored", stored.RawChange, plain, cur)
+	// transmission
+	inList := func(l []int, a int) bool {
+		for _, x := range l {
+			if x == a {
+				return true
+			}
 		}
-		rc := &treechangeproto.RawTreeChange{}
-		tc := &treechangeproto.TreeChange{}
-		if rc.UnmarshalVT(rawb) != nil || tc.UnmarshalVT(rc.Payload) != nil {
-			h.r.Fatal("cannot decode a stored change")
+		return false
+	}
+	for _, rp := range t.reps {
+		if !(live && rp.acc == w) {
+			rp.pending = append(rp.pending, pl)
 		}
-		if tc.ReadKeyId != h.gens[cur].recId {
-			h.violate("keys.tree-keyid", fmt.Sprintf("%s change names read key id of a generation other than the current one (%d)", what, cur))
-		}
-		// ciphertext under the tree key derived from the generation the id names
-		tk, derr := crypto.NewKeyDeriver(fmt.Sprintf(crypto.AnysyncTreePath, t.root.Id)).DeriveKey(must(h.gens[cur].key.Raw()))
-		if derr != nil {
-			h.r.Fatal(derr.Error())
-		}
-		dec, derr := tk.Decrypt(tc.ChangesData)
-		if derr != nil || !bytes.Equal(dec, plain) {
-			h.violate("keys.tree-ciphertext", fmt.Sprintf("%s change data is not the plaintext encrypted under the tree key of generation %d", what, cur))
+		switch {
+		case inList(o.keepPending, rp.acc):
+		case o.deliverAll || inList(o.deliverTo, rp.acc) || h.r.Chance(70):
+			h.deliver(rp)
 		}
 	}
-	// every account reads through its own tree object
+	h.probeAll()
+}
+
+// probeAll reads, for every account, every change through the long-lived tree and through a fresh tree.
+func (h *hist) probeAll() {
+	t := h.tree
 	for a := range h.accs {
-		al := h.cviews[a]
-		at, err := objecttree.BuildObjectTree(t.st, al)
+		rp := t.reps[a]
+		row := h.keyRow(h.cviews[a])
+		member := h.perm[a] != pNone
+		complete := len(rp.pending) == 0
+		// long-lived tree: only what was delivered can be asked for; a member is entitled to everything, but its
+		// tree refreshes its key cache only when it is touched, so the demand is made when it has just received
+		// everything (the last delivery happened after the last ACL record)
+		var cache []byte
+		for g := range h.gens {
+			cache = append(cache, '?')
+			_ = g
+		}
+		for _, c := range t.written {
+			if !rp.has[c.id] {
+				continue
+			}
+			ok, rerr := canRead(rp.tree, rp.got, c)
+			if ok && !bytes.Equal(rp.got[c.id], c.plain) {
+				h.violate("keys.tree-live", fmt.Sprintf("the long-lived tree of account %d decrypts a change to something else than the original", a))
+			}
+			if ok {
+				cache[c.gen] = '1'
+			} else if cache[c.gen] == '?' {
+				cache[c.gen] = '0'
+			}
+			if member && complete && !ok {
+				h.violate("keys.tree-live", fmt.Sprintf("after record %d member %d (%s, key map %s) cannot read, through its long-lived tree, a change written by %d under generation %d: %v", len(h.raw)-1, a, permName(h.perm[a]), row, c.author, c.gen, rerr))
+				break
+			}
+			if row[c.gen] == '0' && ok {
+				h.violate("keys.tree-nonmember-decrypt", fmt.Sprintf("account %d has no key of generation %d but its long-lived tree decrypts a change written under it", a, c.gen))
+				break
+			}
+		}
+		if member {
+			h.r.Count("tree.live-member-probe")
+		} else {
+			h.r.Count("tree.live-nonmember-probe")
+		}
+		h.cacheCorr(a, string(cache))
+		// fresh tree over the shared storage and the fresh client view
+		at, err := objecttree.BuildObjectTree(t.st, h.cviews[a])
 		if err != nil {
-			if h.perm[a] != pNone {
+			if member {
 				h.violate("keys.tree", fmt.Sprintf("member %d cannot build the tree over its view: %v", a, err))
 			}
 			h.r.Count("tree.reader-build-failed")
 			continue
 		}
 		got := map[string][]byte{}
-		ierr := at.IterateRoot(func(ch *objecttree.Change, decrypted []byte) (any, error) {
-			got[ch.Id] = append([]byte{}, decrypted...)
-			return "m", nil
-		}, func(ch *objecttree.Change) bool { return true })
-		row := h.keyRow(al)
-		if h.perm[a] != pNone {
+		for _, c := range t.written {
+			ok, rerr := canRead(at, got, c)
+			if ok && !bytes.Equal(got[c.id], c.plain) {
+				h.violate("keys.tree-member-decrypt", fmt.Sprintf("a fresh tree of account %d decrypts a change to something else than the original", a))
+			}
+			if member && !ok {
+				h.violate("keys.tree-member-decrypt", fmt.Sprintf("after record %d member %d does not read back, through a fresh tree, a change written by %d under generation %d: %v", len(h.raw)-1, a, c.author, c.gen, rerr))
+				break
+			}
+			if ok != (row[c.gen] == '1') {
+				h.violate("keys.tree-nonmember-decrypt", fmt.Sprintf("account %d key map %s, but a fresh tree reads a change of generation %d: %v", a, row, c.gen, ok))
+				break
+			}
+		}
+		if member {
 			h.r.Count("tree.member-read")
-			if ierr != nil {
-				h.violate("keys.tree-member-decrypt", fmt.Sprintf("member %d cannot iterate the tree: %v", a, ierr))
-				continue
-			}
-			for _, c := range t.written {
-				if !bytes.Equal(got[c.id], c.plain) {
-					h.violate("keys.tree-member-decrypt", fmt.Sprintf("member %d does not read back the plaintext of a change written under generation %d", a, c.gen))
-					break
-				}
-			}
 		} else {
 			h.r.Count("tree.nonmember-read")
-			for _, c := range t.written {
-				if row[c.gen] == '0' {
-					if g, ok := got[c.id]; ok && bytes.Equal(g, c.plain) {
-						h.violate("keys.tree-nonmember-decrypt", fmt.Sprintf("account %d has no key of generation %d but its tree decrypts a change written under it", a, c.gen))
-					}
-					if ierr == nil {
-						h.violate("keys.tree-nonmember-decrypt", fmt.Sprintf("account %d has no key of generation %d but iterating the tree with decryption succeeds", a, c.gen))
-					} else if !errors.Is(ierr, list.ErrNoReadKey) {
-						h.r.Count("tree.nonmember-other-error")
-					}
-					break
-				}
-			}
 		}
 	}
 }
